@@ -545,13 +545,17 @@ def dtype_rule(check):
 NARROW_FLOATS = {"float32", "float16", "single", "half", "f4", "f2", "<f4", "<f2", "csingle", "complex64"}
 
 
-def _narrow_type(e):
+NARROW_INTS = {"int8", "uint8", "int16", "uint16", "byte", "ubyte", "short", "ushort", "i1", "u1", "i2", "u2", "<i2", "<u2"}
+
+
+def _narrow_type(e, ints=False):
     import ast
-    if isinstance(e, ast.Attribute) and e.attr in NARROW_FLOATS:
+    names = NARROW_INTS if ints else NARROW_FLOATS
+    if isinstance(e, ast.Attribute) and e.attr in names:
         return e.attr
-    if isinstance(e, ast.Name) and e.id in NARROW_FLOATS:
+    if isinstance(e, ast.Name) and e.id in names:
         return e.id
-    if isinstance(e, ast.Constant) and isinstance(e.value, str) and e.value in NARROW_FLOATS:
+    if isinstance(e, ast.Constant) and isinstance(e.value, str) and e.value in names:
         return e.value
     return None
 
@@ -565,11 +569,30 @@ def dtype_narrow(check):
     pid, proj = check.pid, check.proj
     n = bad = 0
     for f in proj.all_functions():
-        if not in_scope(pid, f):
+        if not in_scope(pid, f) and not (f.name == "__init__" and f.cls is not None and any(in_scope(pid, g) for g in f.cls.methods.values() if g.name != "__init__")):
             continue
         n += 1
         for c in ast.walk(f.node):
             if not isinstance(c, ast.Call):
+                continue
+            # 8- and 16-bit INTEGERS: whatever they hold in this library (cell / face indices, counts, the integer-valued normals
+            # and connectivity tables) is bounded by the mesh size, which no statement bounds by 255 or 65535 -- numpy wraps silently
+            ti = None
+            if isinstance(c.func, ast.Attribute) and c.func.attr == "astype" and c.args:
+                ti = _narrow_type(c.args[0], ints=True)
+            # (conversions of existing data and index generators; an ALLOCATION -- zeros / empty / full -- of a small integer table
+            # filled with literal 0 / +-1 entries, the face normals, is not one)
+            fname = c.func.attr if isinstance(c.func, ast.Attribute) else (c.func.id if isinstance(c.func, ast.Name) else "")
+            if fname in ("asarray", "array", "asanyarray", "ascontiguousarray", "arange", "fromiter", "indices", "flatnonzero", "nonzero", "where", "cumsum", "ravel_multi_index") and c.args and not isinstance(c.args[0], (ast.Constant, ast.List, ast.Tuple)):
+                for k in c.keywords:
+                    if k.arg == "dtype":
+                        ti = ti or _narrow_type(k.value, ints=True)
+            if ti is None and _narrow_type(c.func, ints=True) and c.args and not isinstance(c.args[0], ast.Constant):
+                ti = _narrow_type(c.func, ints=True)
+            if ti:
+                bad += 1
+                check.violation("DTYPE-NARROW", f.qualname, "`%s` (line %d) converts to %s, which holds at most %s: indices, counts and integer tables grow with the mesh, and numpy wraps silently past that (a face index above the limit addresses another face, without an error)" % (unparse_(c)[:60], c.lineno, ti, "255" if "8" in ti or ti in ("i1", "u1", "byte", "ubyte") else "65535"),
+                                "%s:%d" % (f.module.relpath, c.lineno), key="narrow-int-%s" % f.name)
                 continue
             t = None
             if isinstance(c.func, ast.Attribute) and c.func.attr == "astype" and c.args:
@@ -584,7 +607,7 @@ def dtype_narrow(check):
                 check.violation("DTYPE-NARROW", f.qualname, "`%s` (line %d) converts to %s: the values carry a relative error of %s from here on, far above the double-precision round-off the statement allows" % (unparse_(c)[:60], c.lineno, t, "1e-3" if "16" in t or "half" in t or "f2" in t else "6e-8"),
                                 "%s:%d" % (f.module.relpath, c.lineno), key="narrow-%s" % f.name)
     if n and not bad:
-        check.ok("DTYPE-NARROW", "%d functions in scope" % n, "no conversion to single / half precision", nontrivial=False)
+        check.ok("DTYPE-NARROW", "%d functions in scope" % n, "no conversion to single / half precision, none to 8- / 16-bit integers", nontrivial=False)
 
 
 def abs_round(check):
